@@ -1004,7 +1004,7 @@ impl fmt::Display for PreExp {
                 }
             }
             Self::Variable(name) => {
-                if name.contains('_') {
+                if crate::utils::is_escaped_variable_name(name) {
                     //in case this is a escaped variable
                     format!("\\{}", **name)
                 } else {
